@@ -15,9 +15,11 @@ import (
 	"github.com/platinummonkey/go-concurrency-limits/core"
 	"github.com/platinummonkey/go-concurrency-limits/limit"
 	"github.com/platinummonkey/go-concurrency-limits/limiter"
+	"github.com/platinummonkey/go-concurrency-limits/patterns/pool"
 	"github.com/platinummonkey/go-concurrency-limits/strategy"
 
 	"verifharness/internal/blk"
+	"verifharness/internal/inject"
 	"verifharness/internal/rt"
 )
 
@@ -173,6 +175,32 @@ func scenario(t *testing.T, idx int64, r *rand.Rand) {
 				ops = append(ops, fmt.Sprintf("release-at-timeout-of(%d)", first.ID))
 				overlaps++
 				check("after-release-at-timeout-instant")
+			case x == 10 && k.Evict && r.IntN(2) == 0: // release; the caller the hand-off is for is cancelled while the delegate is being asked
+				if len(held) == 0 {
+					continue
+				}
+				var hit atomic.Int64
+				hit.Store(-1)
+				prev := w.Gate.Hook
+				w.Gate.Hook = func(e inject.GateEvent) {
+					if w.WaiterByGoID(e.GoID) == nil && e.OK && e.Caller >= 0 && e.Caller < len(w.Waiters) && hit.CompareAndSwap(-1, int64(e.Caller)) {
+						w.CancelWaiter(w.Waiters[e.Caller])
+						for i := 0; i < 300; i++ {
+							runtime.Gosched()
+						}
+					}
+					if prev != nil {
+						prev(e)
+					}
+				}
+				var l core.Listener
+				l, held = held[0], held[1:]
+				w.Release(l, "success")
+				w.Quiesce()
+				w.Gate.Hook = prev
+				ops = append(ops, fmt.Sprintf("release+cancel-of-the-hand-off-target(%d)-inside-the-delegate-attempt", hit.Load()))
+				overlaps++
+				check("after-release-with-cancel-inside-the-hand-off-attempt")
 			case x == 10 && k.Evict: // cancel the next-in-line and release at once (no quiescence in between)
 				var cand []*blk.Waiter
 				for _, wt := range w.Waiters {
@@ -322,6 +350,101 @@ func defaultBound(t *testing.T, idx int64, r *rand.Rand) {
 	rt.Distinct(fmt.Sprintf("defaultbound|%v|%d|%d", k, size, extra))
 }
 
+// poolBound: the pools configure a queue limiter of their own - the backlog bound handed to the pool constructor is
+// the bound that holds.  Every unit is held; callers arrive one at a time (quiescence in between): the first B wait,
+// every further one is refused at the instant it arrives; the pool's queue gauges say the same.
+func poolBound(t *testing.T, idx int64, r *rand.Rand) {
+	ord := []pool.Ordering{pool.OrderingFIFO, pool.OrderingLIFO}[r.IntN(2)]
+	L := 1 + r.IntN(6)
+	B := 1 + r.IntN(6)
+	kind := []string{"fixed", "generic"}[r.IntN(2)]
+	extra := 1 + r.IntN(3)
+	var sig string
+	var detail rt.J
+	bubble(t, func(t *testing.T) {
+		reg := inject.NewRecRegistry()
+		var p core.Limiter
+		if kind == "fixed" {
+			fp, err := pool.NewFixedPool("c12", ord, L, -1, -1, -1, -1, B, time.Hour, nil, reg)
+			if err != nil {
+				panic(err)
+			}
+			p = fp
+		} else {
+			dl, err := limiter.NewDefaultLimiter(limit.NewFixedLimit("c12", L, nil), 1e9, 1e9, 1e5, 100, strategy.NewSimpleStrategy(L), limit.NoopLimitLogger{}, core.EmptyMetricRegistryInstance)
+			if err != nil {
+				panic(err)
+			}
+			gp, err := pool.NewPool(dl, ord, B, time.Hour, nil, reg)
+			if err != nil {
+				panic(err)
+			}
+			p = gp
+		}
+		var held []core.Listener
+		for i := 0; i < L; i++ {
+			l, ok := p.Acquire(context.Background())
+			if !ok {
+				panic("c12: unit refused")
+			}
+			held = append(held, l)
+		}
+		type wt struct {
+			done   atomic.Bool
+			ok     bool
+			l      core.Listener
+			cancel context.CancelFunc
+		}
+		var ws []*wt
+		for i := 0; i < B+extra; i++ {
+			time.Sleep(time.Millisecond)
+			ctx, cancel := context.WithCancel(context.Background())
+			w := &wt{cancel: cancel}
+			ws = append(ws, w)
+			t0 := time.Now()
+			var took time.Duration
+			go func() { w.l, w.ok = p.Acquire(ctx); took = time.Since(t0); w.done.Store(true) }()
+			synctest.Wait()
+			if i < B && w.done.Load() && sig == "" {
+				sig, detail = "caller-within-the-backlog-bound-did-not-wait", rt.J{"arrival": i, "ok": w.ok}
+			}
+			if i >= B && (!w.done.Load() || w.ok || took != 0) && sig == "" {
+				sig, detail = "caller-waits-although-the-backlog-holds-its-configured-maximum", rt.J{"arrival": i, "returned": w.done.Load(), "callers_already_blocked": B}
+			}
+		}
+		if g, ok := reg.GaugeByPrefix(core.MetricQueueLimit); sig == "" && (!ok || int(g) != B) {
+			sig, detail = "queue-limit-gauge-differs-from-the-configured-bound", rt.J{"gauge": g}
+		}
+		if g, ok := reg.GaugeByPrefix(core.MetricQueueSize); sig == "" && (!ok || int(g) != B) {
+			sig, detail = "queue-size-differs-from-blocked-callers", rt.J{"gauge": g, "blocked": B}
+		}
+		for _, w := range ws {
+			w.cancel()
+		}
+		for _, l := range held {
+			l.OnSuccess()
+		}
+		for round := 0; round < B+extra+2; round++ {
+			synctest.Wait()
+			for _, w := range ws {
+				if w.done.Load() && w.ok && w.l != nil {
+					w.l.OnSuccess()
+					w.l = nil
+				}
+			}
+		}
+		synctest.Wait()
+	})
+	rt.Count("pool_backlog_bound_cases", 1)
+	cfg := rt.J{"pool": kind, "ordering": ord, "limit": L, "max_backlog": B, "arrivals": B + extra}
+	if sig != "" {
+		detail["config"] = cfg
+		rt.Violation(fmt.Sprintf("C12/pool-%s/%s", kind, sig), idx, detail)
+		return
+	}
+	rt.Distinct(fmt.Sprintf("poolbound|%v", cfg))
+}
+
 func TestCheck(t *testing.T) {
 	rt.Cases(2000, 400000, func(idx int64) {
 		r := rt.CaseRand(12, idx)
@@ -332,6 +455,10 @@ func TestCheck(t *testing.T) {
 		}
 		if idx%25 == 12 {
 			returnInstantStress(idx, r)
+			return
+		}
+		if idx%25 == 6 {
+			poolBound(t, idx, r)
 			return
 		}
 		scenario(t, idx, r)
